@@ -303,6 +303,11 @@ scpi_expr_result_t SCPI_ExprChannelListEntry(scpi_t * context, scpi_parameter_t 
         }
     }
 
+    /* the requested entry must be followed by a comma or by the end of the list */
+    if ((res == SCPI_EXPR_OK) && !scpiLex_IsEos(&lex) && !scpiLex_Comma(&lex, &token)) {
+        res = SCPI_EXPR_ERROR;
+    }
+
     if (res == SCPI_EXPR_ERROR) {
         SCPI_ErrorPush(context, SCPI_ERROR_EXPRESSION_PARSING_ERROR);
     }
